@@ -7,6 +7,7 @@ package server
 
 import (
 	"bytes"
+	"os"
 	"context"
 	"fmt"
 	"sort"
@@ -47,7 +48,7 @@ func TestVerifC04(t *testing.T) {
 			id++
 			rf := 1 + r.intn(3)
 			replicas := []string{me, "b", "c"}[:rf]
-			cc := !sc.batch && r.intn(3) == 0
+			cc := r.intn(3) == 0 || os.Getenv("VERIF_CC_ONLY") != ""
 			name := fmt.Sprintf("s%d", id)
 			v, err := vNewPart(srv, name, replicas, func(st *proto.Stream) {
 				if cc {
@@ -59,6 +60,8 @@ func TestVerifC04(t *testing.T) {
 			}
 			var steps []vM
 			viol, vsig := "", ""
+			c16viol := ""
+			c16viol2 := ""
 			setViol := func(sig, what string) {
 				if viol == "" {
 					viol, vsig = what, sig
@@ -95,6 +98,9 @@ func TestVerifC04(t *testing.T) {
 					if m == nil {
 						setViol("ack-unknown", fmt.Sprintf("ack for correlation id %s which was never published", a["corr"]))
 						continue
+					}
+					if a["err"] == "INCORRECT_OFFSET" && m["expected"].(int64) == -1 && c16viol == "" {
+						c16viol = fmt.Sprintf("message %s waived the offset check (expected offset -1) and was refused with an incorrect-offset error", a["corr"])
 					}
 					if a["err"] != "OK" {
 						continue
@@ -153,7 +159,8 @@ func TestVerifC04(t *testing.T) {
 							}
 						}
 						val := fmt.Sprintf("%s:%s", cid, string(bytes.Repeat([]byte("x"), size)))
-						m := vM{"corr": cid, "policy": pol.String(), "large": size >= 600, "expected": expected, "value": val}
+						m := vM{"corr": cid, "policy": pol.String(), "large": size >= 600, "expected": expected, "value": val,
+							"wrong": cc && k == 1 && size < 600 && expected != -1 && expected != v.p.log.NewestOffset()+1}
 						sent[cid] = m
 						group = append(group, vM{"corr": cid, "policy": pol.String(), "large": size >= 600, "expected": expected})
 						v.publish(cid, nil, []byte(val), pol, expected)
@@ -166,6 +173,22 @@ func TestVerifC04(t *testing.T) {
 						stats["step/publish-group"]++
 					}
 					observe(vM{"op": "publish", "msgs": group})
+					for _, g := range group {
+						m := sent[g["corr"].(string)]
+						if m["wrong"].(bool) && c16viol == "" {
+							answered := false
+							v.mu.Lock()
+							for _, a := range v.acks {
+								if a.CorrelationId == g["corr"].(string) && a.AckError == client.Ack_INCORRECT_OFFSET {
+									answered = true
+								}
+							}
+							v.mu.Unlock()
+							if !answered {
+								c16viol2 = fmt.Sprintf("message %s (policy %s) expected offset %d on a log whose next offset was another one; it was not stored, and no incorrect-offset error came back", g["corr"], m["policy"], m["expected"])
+							}
+						}
+					}
 				case 1:
 					var cands []string
 					for _, f := range []string{"b", "c"}[:rf-1] {
@@ -233,6 +256,12 @@ func TestVerifC04(t *testing.T) {
 			cj := vM{"k": "ack", "id": id, "replicas": replicas, "minisr": sc.minISR, "cc": cc, "batch": sc.batch, "steps": steps}
 			if viol != "" {
 				out.emit(vM{"k": "violation", "sig": vsig, "what": viol, "case": cj})
+			}
+			if c16viol != "" {
+				out.emit(vM{"k": "violation", "prop": "C16", "sig": "unconditional-publish-refused", "what": c16viol, "case": cj})
+			}
+			if c16viol2 != "" {
+				out.emit(vM{"k": "violation", "prop": "C16", "sig": "conditional-publish-unanswered", "what": c16viol2, "case": cj})
 			}
 			out.emit(cj)
 			v.close()
